@@ -24,6 +24,8 @@ CLAIMS = {
          "bounded by number of results and value alphabet; 'num' on a concrete list of strings"),
  "C10": ("every finite float64 against the scale the real CommonScale chooses (its threshold tables are built by the package's own init code, executed by the engine): the quotient that Format prints is compared with exact decimal rounding boundaries by cvc5 floating-point queries; shared scales against the smallest non-zero magnitude",
          "AppendFloat is modelled by its rounding contract (constants computed in exact rational arithmetic); NoOpScaler's shortest formatting and the printed digits themselves are outside"),
+ "C11": ("partial: the exact method. Bounded symbolic execution of the real MannWhitneyUTest/UDist on symbolic float samples: each path is one weak ordering of the pooled values (decided by float comparisons in cvc5), on which U, the one-sided p-values, the two-sided value, the unit interval, swap symmetry and PMF/CDF consistency are compared with the permutation distribution enumerated by the harness",
+         "NOT covered: the normal approximation for large samples; sizes beyond the bounds; NaN inputs assumed away. Two open known findings (two-sided p-value with ties) are listed in known_findings.json and reported as KNOWN-FINDING"),
  "C19": ("partial: everything before SQL. Bounded symbolic execution of query-word parsing, per-key term merging (denotation of the merged part at a symbolic probe value equals the conjunction of the operands), the generated subselect templates evaluated on a symbolic record, shell-style word splitting, the front end's real quoting function, and the legacy printer/reader round trip",
          "NOT covered: execution of the SQL by sqlite3/MySQL, joins, listing counts/order/limit, HTTP (cgo/network code cannot be executed symbolically); bounded by word/value lengths"),
 }
